@@ -132,6 +132,18 @@ def generate(rng, n, tier="quick"):
         c, m = gen_case(rng.fork(i), i)
         c["id"] = "%s-%06d" % (ID, i)
         out.append((c, m))
+    # the family of the Lean theorem C18.missing_variable_points_at_the_tag: L ++ {{v}} ++ R registered under a name, strict mode,
+    # no field v: MissingVariable at the line/column of the tag, the template named, exactly L written
+    from .C03 import thm_left, thm_right
+    for k in range(max(20, n // 10)):
+        r = rng.fork("thm%d" % k)
+        L, R = thm_left(r), thm_right(r)
+        src = L + "{{v}}" + R
+        line, col = line_col(src, len(L))
+        nm = r.pick(["main", "dir/t.hbs", "é"])
+        c = session({"strict": True, "escape": "none"}, [(nm, src)], {"api": "render_to_write", "name": nm}, {"w": 1})
+        c["id"] = "C18-thm%04d" % k
+        out.append((c, {"name": nm, "line": line, "col": col, "reason": "MissingVariable", "tag": "{{v}}", "where": "thm", "chain": False, "written": L}))
     # compile errors: name and a position inside the source
     for k, (src, reason) in enumerate([("a\n{{#if x}}", "InvalidSyntax"), ("{{#if x}}\n{{/each}}", "MismatchingClosedHelper"),
                                        ("é\n {{foo 1.}}", "InvalidParam"), ("{{#*inline \"a\"}}{{/x}}", "MismatchingClosedDecorator")]):
@@ -165,6 +177,8 @@ def oracle(case, meta, impl):
         v.append("reason %s, expected %s" % (l.get("reason"), meta["reason"]))
     if l.get("name") != meta["name"]:
         v.append("error names template %r, the failing tag is in %r" % (l.get("name"), meta["name"]))
+    if "written" in meta and l.get("written") != meta["written"]:
+        v.append("written before the error %r, expected %r" % (l.get("written"), meta["written"]))
     if (l.get("line"), l.get("col")) != (meta["line"], meta["col"]):
         v.append("error points at %s:%s, the tag %s begins at %s:%s" % (l.get("line"), l.get("col"), meta["tag"], meta["line"], meta["col"]))
     return v
